@@ -759,6 +759,7 @@ struct TypedRunner<'c, 'a> {
     case: &'c Case,
     infinite_float: bool,
     lone_absent_item: bool,
+    empty_attr_vec: bool,
 }
 
 impl<'c, 'a> TypedRunner<'c, 'a> {
@@ -767,6 +768,8 @@ impl<'c, 'a> TypedRunner<'c, 'a> {
             ":infinite_float"
         } else if self.lone_absent_item {
             ":lone_absent_item"
+        } else if self.empty_attr_vec {
+            ":empty_attr_vec"
         } else {
             ""
         }
@@ -780,6 +783,10 @@ impl<'c, 'a> TypedVisitor for TypedRunner<'c, 'a> {
 
     fn note_lone_absent_item(&mut self, present: bool) {
         self.lone_absent_item = present;
+    }
+
+    fn note_empty_attr_vec(&mut self, present: bool) {
+        self.empty_attr_vec = present;
     }
 
     fn visit<T>(&mut self, type_name: &'static str, value: T, eq: fn(&T, &T) -> bool)
@@ -1013,7 +1020,7 @@ fn run_case(ctx: &mut Ctx<'_>, case: &Case) {
         Body::Typed(tv) => {
             ctx.rec("case", &format!("#{} typed {}", case.id, tv.type_name()));
             ctx.count("cases_typed", 1);
-            let mut runner = TypedRunner { ctx, case, infinite_float: false, lone_absent_item: false };
+            let mut runner = TypedRunner { ctx, case, infinite_float: false, lone_absent_item: false, empty_attr_vec: false };
             tv.dispatch(&mut runner);
         }
         Body::Model(vj) => {
